@@ -42,7 +42,7 @@ func (o sop) String() string {
 	return fmt.Sprintf("%s(%d->%d)", o.Op, o.P, o.Q)
 }
 
-var msgKinds = []string{"honest", "honest", "honest", "other-signer", "other-signer-with-key", "claims-other", "tampered-body", "tampered-sig", "unsigned", "other-context", "other-context-verified", "empty-body"}
+var msgKinds = []string{"honest", "honest", "honest", "honest-large", "tampered-tail-large", "other-signer", "other-signer-with-key", "claims-other", "tampered-body", "tampered-sig", "unsigned", "other-context", "other-context-verified", "empty-body"}
 var epochKinds = []string{"current", "current", "current", "stale", "zero", "future", "huge"}
 
 // genSops draws a history from the given operation mix over nPeers identities.
@@ -211,6 +211,21 @@ func (t *strace) apply(o sop) bool {
 		}
 		s.stop()
 		delete(t.live, k)
+	case "anon":
+		// a Session call towards Q arriving without any authenticated stream identity: it must be refused and must
+		// not disturb anybody (in particular not take over the session of the peer that called last)
+		s := newSrvSession(-1, o.Q)
+		t.all = append(t.all, s)
+		s.start(t.srv, true)
+		t.classes["unauthenticated-call"] = true
+		t.hist = append(t.hist, o.String())
+		waitFor(8*time.Second, func() bool { e, _ := s.ended(); return e })
+		if ended, err := s.ended(); !ended || err == nil || len(s.log()) != 0 {
+			t.classes["unauthenticated-call-accepted"] = true
+		}
+		s.stop()
+		t.settle()
+		return true
 	case "preinit":
 		// a call whose first request is not Init
 		s := newSrvSession(o.P, o.Q)
@@ -267,10 +282,10 @@ func (t *strace) apply(o sop) bool {
 			other = (o.P + 2) % 3
 		}
 		m := mkMsg(o.Kind, o.P, other, []byte(fmt.Sprintf("m%d-%d-%d", o.P, o.Q, t.seq)), msgSeq)
-		sub := submitted{at: tick(), from: o.P, to: o.Q, strm: s, msg: m, honest: o.Kind == "honest", epochSent: ep, epochCur: cur, kind: o.Kind, epochKind: o.Epoch}
+		sub := submitted{at: tick(), from: o.P, to: o.Q, strm: s, msg: m, honest: honestKind(o.Kind), epochSent: ep, epochCur: cur, kind: o.Kind, epochKind: o.Epoch}
 		t.subs = append(t.subs, sub)
 		t.lastSentSeq[k] = msgSeq
-		if o.Kind != "honest" {
+		if !honestKind(o.Kind) {
 			t.classes["dishonest-send"] = true
 		}
 		if ep != cur {
